@@ -197,6 +197,8 @@ def seeded_map(r, max_segments=12, max_total_s=9.0e5, min_segments=1):
             n = r.randrange(10**6, 10**9 + 1)        # up to 10^6 BPM
         else:
             n = r.choice([1, 999, 1000, 120000, 120500, 10**9, 999999999, 33333, 1118, 1265])
+        if tempo and r.random() < 0.15:
+            n = tempo[-1][1]              # a marker that RESTATES the tempo in force (runs of them occur: one marker per measure)
         tempo.append([t, n])
         # choose a duration for this segment, convert to ticks (at least 1)
         remaining = budget - spent
@@ -356,3 +358,20 @@ def marathon_map(r):
     pts.add(far)
     pts.add((t + far) // 2)
     return res, tempo, sorted(p for p in pts if 0 <= p <= max(far, t))
+
+
+def restated_run_map(r):
+    """A map with a run of 3-12 markers that all restate one tempo, segment lengths whose duration has a fractional
+    microsecond, observations on every marker and between them."""
+    res = r.choice([192, 480, 100, 7])
+    n = r.choice([120000, 90500, 60100, 250000, 10**7, 130208])
+    tempo, t = [[0, r.choice([n, 100000])]], 0
+    gap = r.choice([1, 7, 100, 333])
+    for _ in range(r.randrange(3, 13)):
+        t += gap + r.choice([0, 0, 1])
+        tempo.append([t, n])
+    if r.random() < 0.5:
+        t += gap
+        tempo.append([t, r.choice([60000, 200000])])
+    pts = sorted({0} | {x[0] + d for x in tempo for d in (0, 1) } | {max(0, x[0] - 1) for x in tempo} | {t + 1000})
+    return res, tempo, pts
